@@ -20,6 +20,8 @@ func init() {
 			"(teardown-waits) sharedEncryption.Remove closes the wrapped session only after leaving a loop that waits (Cond.Wait) while accessCounter > 0, all under s.mu; every decrement is followed by Broadcast; the counter is " +
 			"mutated only under s.mu; (single-teardown-path) Remove is called only from the evict callback installed by newSessionCache, that callback never closes a session directly, and SessionFactory.Close reaches the cache's " +
 			"Close (which fires the callback once per entry — C15.callback-exactly-once); (shared-wrapper) every session the loader returns for caching has its encryption wrapped in sharedEncryption, so a holder's Close only decrements. " +
+			"Also: helpers that run inside Get's critical section never release c.mu; every success return of Get passes a usage increment that really adds one (holder-counted); both mutexes are paired and balanced on every path; and the generic " +
+			"cache rules a cached session depends on (C15.removal-notifies, expiry-evicts, remove-unlinks, relink-is-a-move, element-recorded: no entry leaves un-notified, none is notified twice through a stale list element). " +
 			"Interleavings and expiry timing are not decided.",
 		NotDecided:  []string{"interleavings of getters/closers/evictions at run time", "expiry timing", "that a held session 'keeps working' (depends on C08/C09 properties of the key caches)"},
 		Assumptions: []string{"sync.Cond.Wait returns with the lock held", "the generic cache fires the eviction callback exactly once per entry (C15)"},
